@@ -213,14 +213,62 @@ def sanity (evs : List Event) : Option String :=
   else if evs.any (fun e => e.on + e.off > 65535) then some "fail duration_wrap (on_time+off_time of an event exceeds 65535: 16-bit underflow)"
   else none
 
-def judgeItems : List Item → List Event → Nat → Option String
+/-- the events an extended note / rest / free tie is recorded in: starting with `len` ticks of
+which `on` keyed on, take TIE and REST events until `need` ticks are reached (a NOTE ends the
+run).  `(len, on, shape, events left)`; `shape` spells the events taken (`T`, `R`) -/
+def eatTimed (need : Nat) (tieOk : Bool) : List Event → Nat → Nat → String → Nat × Nat × String × List Event
+  | [], len, on, sh => (len, on, sh, [])
+  | e :: es, len, on, sh =>
+    if len ≥ need || e.type == ev_NOTE || (e.type == ev_TIE && !tieOk) then (len, on, sh, e :: es)
+    else eatTimed need tieOk es (len + e.on + e.off) (on + (if e.type == ev_TIE then e.on else 0))
+      (sh ++ (if e.type == ev_TIE then "T" else "R"))
+
+def showTimedEvents (l : List Event) : String :=
+  " ".intercalate (l.map fun e => (if e.type == ev_NOTE then "NOTE" else if e.type == ev_TIE then "TIE" else "REST") ++ s!"({e.on}+{e.off})")
+
+/-- the timed events of a track (NOTE, TIE, REST; REST events of no length dropped) against the
+spec's extended notes, rests and free ties: per extended note the pitch, Σ(on+off) = `dur` and
+`onLo ≤ Σ on ≤ onHi` over its NOTE and TIE events — never the split into events -/
+def judgeTimed : List MmlMeaning.Timed → List Event → Nat → Option String
   | [], [], _ => none
-  | it :: its, e :: es, i =>
-    if e.param != it.pitch then some s!"fail pitch note#{i} want {it.pitch} got {e.param}"
-    else if it.plain && (e.on != it.on || e.on + e.off != it.dur) then
-      some s!"fail on_time_rule note#{i} want on={it.on} off={it.dur - it.on} got on={e.on} off={e.off}"
-    else judgeItems its es (i + 1)
-  | _, _, i => some s!"fail note_count differs at note#{i}"
+  | [], e :: _, i => some s!"fail note_count a timed event (type {e.type}, {e.on}+{e.off}) is left over behind note#{i}"
+  | .group it :: ts, es, i =>
+    match es with
+    | [] => some s!"fail note_count differs at note#{i}"
+    | e :: es' =>
+      if e.type != ev_NOTE then some s!"fail note_count differs at note#{i} (a NOTE is due, got type {e.type} {e.on}+{e.off})"
+      else if e.param != it.pitch then some s!"fail pitch note#{i} want {it.pitch} got {e.param}"
+      else
+        let (len, on, sh, left) := eatTimed it.dur true es' (e.on + e.off) e.on "N"
+        let got := showTimedEvents ((e :: es').take sh.length)
+        if it.plain && (len != it.dur || on < it.onLo || on > it.onHi) then
+          some s!"fail on_time_rule note#{i} want on={it.onLo} off={it.dur - it.onLo} got {got}"
+        else if len != it.dur then
+          some s!"fail group_duration note#{i} (extended note) want {it.dur} ticks, events {got} give {len}"
+        else if on < it.onLo || on > it.onHi then
+          let key := if it.afterSep then "sep_tie_on_time" else "group_on_time"
+          let want := if it.onLo == it.onHi then s!"{it.onLo}" else s!"{it.onLo}..{it.onHi}"
+          some s!"fail {key} note#{i} (extended note of {it.dur} ticks) keyed on for {on} ticks, want {want}; events {got}"
+        else judgeTimed ts left (i + 1)
+  | .rest d :: ts, es, i =>
+    let (len, _, sh, left) := eatTimed d false es 0 0 ""
+    if len != d then some s!"fail rest_duration behind note#{i}: want REST events of {d} ticks, got {showTimedEvents (es.take sh.length)} = {len}"
+    else judgeTimed ts left i
+  | .free d :: ts, es, i =>
+    let (len, _, sh, left) := eatTimed d true es 0 0 ""
+    if len != d then some s!"fail tie_duration behind note#{i}: want TIE/REST events of {d} ticks, got {showTimedEvents (es.take sh.length)} = {len}"
+    else judgeTimed ts left i
+
+/-- the spec's `Expected` against the events recorded on the track -/
+def judgeExpected (exp : Expected) (evs : List Event) : Option String :=
+  let timed := evs.filter fun e => e.type == ev_NOTE || e.type == ev_TIE || (e.type == ev_REST && e.on + e.off != 0)
+  match judgeTimed exp.timed timed 0 with
+  | some f => some f
+  | none =>
+    let total : Int := evs.foldl (fun a e => a + e.on + e.off) 0
+    if total != exp.total then some s!"fail total want {exp.total} got {total}" else
+    let ctl := (evs.filter fun e => e.type != ev_NOTE && e.type != ev_REST && e.type != ev_TIE).map fun e => (e.type, e.param)
+    if ctl != exp.controls then some "fail controls" else none
 
 def judgeMml (arg impl : String) : String :=
   match fieldOf impl "tracks" >>= parseImplTracks with
@@ -238,14 +286,7 @@ def judgeMml (arg impl : String) : String :=
         if !exp.exact then "ok inexact" else
         if fieldOf impl "err" != some "-" then s!"fail rejected {(fieldOf impl "err").getD "?"}" else
         let evs := (tracks.find? (·.id == 0)).map (·.events) |>.getD []
-        let notes := evs.filter (·.type == ev_NOTE)
-        match judgeItems exp.items notes 0 with
-        | some f => f
-        | none =>
-          let total : Int := evs.foldl (fun a e => a + e.on + e.off) 0
-          if total != exp.total then s!"fail total want {exp.total} got {total}" else
-          let ctl := (evs.filter fun e => e.type != ev_NOTE && e.type != ev_REST && e.type != ev_TIE).map fun e => (e.type, e.param)
-          if ctl != exp.controls then "fail controls" else "ok exact"
+        (judgeExpected exp evs).getD "ok exact"
 
 def stripRefs (s : String) : String :=
   ",".intercalate ((s.splitOn ",").map fun e => (e.splitOn "@").headD "")
